@@ -47,6 +47,12 @@ def decorate(w, wn, s, rnd):
             cond = C.OrCondition(cond, C.ValueCondition(wn.get_node(juncs[0]), "pressure", ">", 30.0))
         then = [C.ControlAction(p, "status", w.network.LinkStatus.Closed)]
         els = [C.ControlAction(p, "status", w.network.LinkStatus.Open)] if rnd.random() < 0.6 else None
+        # several THEN / ELSE actions (on other pipes)
+        for q in rnd.sample(pipes, min(len(pipes), rnd.randint(0, 2))):
+            if wn.get_link(q) is not p:
+                then.append(C.ControlAction(wn.get_link(q), "status", rnd.choice([w.network.LinkStatus.Open, w.network.LinkStatus.Closed])))
+                if els is not None and rnd.random() < 0.7:
+                    els.append(C.ControlAction(wn.get_link(q), "status", rnd.choice([w.network.LinkStatus.Open, w.network.LinkStatus.Closed])))
         wn.add_control("rule_x", C.Rule(cond, then, els, priority=rnd.choice([1, 3, 5])))
         if tanks:
             wn.add_control("ctl_lvl", C.Control(C.ValueCondition(wn.get_node(tanks[0]), "level", ">", 4.0),
